@@ -82,7 +82,7 @@ def run (sm : MP.SplineModel) (objs : List MP.Obj) (ktol : ℚ) (names : List St
            if has what "ofoam" then
              Val.list [.list (o.faces.map encFace),
                .list (o.entries.map fun e => .list [.str e.1, Val.ofNat e.2.1, Val.ofNat e.2.2]),
-               Val.ofInt o.declared, Val.ofNat o.ninternal]
+               Val.ofNat o.declared, Val.ofNat o.ninternal]
            else .str "skip")
     .list [ntops, num, cps, cells, faces, ofoam, ifem, plans]
 
